@@ -145,6 +145,39 @@ let run_queue (ops : ostring list) : ostring =
   (match !pending with Some _ -> Buffer.add_string b " asleep" | None -> ());
   Buffer.contents b
 
+(* ---------- UncompressedFile: the hand-written model Lib/UFModel.v ---------- *)
+let uf_summary (s : uf) : ostring =
+  "|" ^ string_of_z (uf_tellg_val s) ^ "," ^ string_of_z (uf_tellp_val s) ^ "," ^ string_of_z s.u_fsz ^ "," ^
+  b01 (uf_good s) ^ b01 (uf_eof s) ^ "," ^ string_of_z s.u_gcount ^ "," ^
+  String.concat ";" (List.map (fun c -> string_of_z c.c_pos ^ ":" ^ string_of_z (c_size c)) s.u_data)
+let run_uf (ops : ostring list) : ostring =
+  let b = Buffer.create 400 in
+  Buffer.add_string b "U";
+  let st = ref uf_init in
+  let stop = ref false in
+  List.iter (fun op -> if not !stop && String.length op > 0 then begin
+    let rest = String.sub op 1 (String.length op - 1) in
+    let num () = z_of_string (if rest = "" then "0" else rest) in
+    let o = (match op.[0] with
+      | 'r' -> Some (URead (num ())) | 's' -> Some (USeekg (num ())) | 'w' -> Some (UWrite (bytes_of_hex rest))
+      | 'c' -> Some (UWriteC (bytes_of_hex rest)) | 'n' -> Some UNext | 'd' -> Some UDrop
+      | 'F' -> Some (USetFileSize (num ())) | 'B' -> Some (USetBufferSize (num ())) | 'C' -> Some (USetDcs (num ()))
+      | 'a' -> Some UAbort | _ -> None) in
+    match o with
+    | None -> Buffer.add_string b " ?"
+    | Some o ->
+        if not (uenabled !st o) then (Buffer.add_string b " blocked"; stop := true)
+        else match ustep !st o with
+          | None -> Buffer.add_string b " undefined"; stop := true
+          | Some (s', bytes) ->
+              st := s';
+              Buffer.add_char b ' ';
+              Buffer.add_char b op.[0];
+              (match o with URead _ -> Buffer.add_string b ("=" ^ hex_of_bytes bytes) | _ -> ());
+              Buffer.add_string b (uf_summary s')
+  end) ops;
+  Buffer.contents b
+
 let process line =
   match String.split_on_char ' ' (String.trim line) with
   | "F" :: c :: _ ->
@@ -201,6 +234,7 @@ let process line =
       String.concat ";" (List.map (fun c ->
         string_of_z c ^ ":rt=" ^ b01 (rt_ok c) ^ ":rtx=" ^ b01 (List.exists (fun x -> Z.eqb x c) rt_exceptions)) object_classes)
   | "Q" :: ops -> run_queue ops
+  | "U" :: ops -> run_uf ops
   | [""] | [] -> ""
   | _ -> "? bad case"
 
